@@ -211,7 +211,15 @@ type Endpoint struct {
 	Cleaned  bool
 	OnCloses int
 	nCb      int
+	// Scribble: Feed passes every piece to Parse in a buffer of its own and overwrites that buffer
+	// with ScribbleByte afterwards, as the engine reuses its read buffer (C11).
+	Scribble bool
+	// LastErr is what the latest Parse call of Feed returned (readable from the after callback).
+	LastErr error
 }
+
+// ScribbleByte is what Feed overwrites its read buffer with after a Parse call (Endpoint.Scribble).
+const ScribbleByte = 0xEE
 
 type engKey struct{ f, rl int }
 
@@ -372,7 +380,17 @@ func (e *Endpoint) Feed(wire []byte, s Seg, after func(call int, st websocket.Ve
 		} else if hi-lo > r.MaxCacheIn {
 			r.MaxCacheIn = hi - lo
 		}
-		err := e.C.Parse(wire[lo:hi:hi])
+		piece := wire[lo:hi:hi]
+		if e.Scribble {
+			piece = append([]byte(nil), piece...)
+		}
+		err := e.C.Parse(piece)
+		if e.Scribble {
+			for i := range piece {
+				piece[i] = ScribbleByte
+			}
+		}
+		e.LastErr = err
 		r.Calls++
 		r.Fed += hi - lo
 		r.StoppedAt = hi
